@@ -54,7 +54,7 @@ impl Prop for P {
         let ops = parse_ops(it.next().unwrap().trim());
         let probes: Vec<Vec<u8>> = it.next().unwrap().trim().split(' ').filter(|s| !s.is_empty()).map(unhex).collect();
         let is_set = ops.iter().all(|o| matches!(o, Op::Add(..)));
-        let out = exec_build("extend", "raw_loop", 0, 10_000, 2, &ops);
+        let out = exec_build("extend", "raw_loop", 0, drows(), dcols(), &ops);
         let bytes = out.bytes.unwrap();
         let f = Fst::new(bytes.clone()).unwrap();
         let map = fst::Map::new(bytes.clone()).unwrap();
